@@ -265,6 +265,13 @@ func cmdRegistry(args []string) {
 	w.Emit(ev.M{"ev": "RegisterDup", "kind": "crl", "rank": rk[firstR.Name], "refused": dup(func() { lint.RegisterRevocationListLint(firstR.R) })})
 	firstO := lintsOf(g, "ocsp")[0]
 	w.Emit(ev.M{"ev": "RegisterDup", "kind": "ocsp", "rank": rk[firstO.Name], "refused": dup(func() { lint.RegisterOcspResponseLint(firstO.O) })})
+	// a refused registration leaves every table as it was - also when the refused lint carries a source its kind does not have yet
+	cpC, cpR, cpO := *first.C, *firstR.R, *firstO.O
+	cpC.Source, cpR.Source, cpO.Source = lint.RFC6960, lint.AppleRootStorePolicy, lint.MozillaRootStorePolicy
+	w.Emit(ev.M{"ev": "RegisterDup", "kind": "cert", "rank": rk[first.Name], "refused": dup(func() { lint.RegisterCertificateLint(&cpC) })})
+	w.Emit(ev.M{"ev": "RegisterDup", "kind": "crl", "rank": rk[firstR.Name], "refused": dup(func() { lint.RegisterRevocationListLint(&cpR) })})
+	w.Emit(ev.M{"ev": "RegisterDup", "kind": "ocsp", "rank": rk[firstO.Name], "refused": dup(func() { lint.RegisterOcspResponseLint(&cpO) })})
+	w.Emit(tablesEvent(g, universe, rk, "after refused registrations"))
 	w.Emit(ev.M{"ev": "RegisterDup", "kind": "cert", "rank": 0, "refused": dup(func() {
 		lint.RegisterCertificateLint(&lint.CertificateLint{LintMetadata: lint.LintMetadata{Name: ""}, Lint: first.C.Lint})
 	})})
